@@ -256,6 +256,17 @@ func (w *World) hasOwnViolation() bool {
 	return false
 }
 
+func (w *World) hasViolationClass(class string) bool {
+	w.mu.Lock()
+	defer w.mu.Unlock()
+	for _, v := range w.violations {
+		if v.Class == class {
+			return true
+		}
+	}
+	return false
+}
+
 func (w *World) hasViolation() bool {
 	w.mu.Lock()
 	defer w.mu.Unlock()
